@@ -100,6 +100,61 @@ def has_kind(r, kinds):
     return any(e[0] in kinds for e in r["events"])
 
 
+def _ptype_of(params, k):
+    ps = [p_.strip() for p_ in params.split(",")]
+    if k >= len(ps):
+        return None
+    m = re.match(r"^(?:typename )?(\w+)", ps[k])
+    return m.group(1) if m else None
+
+
+def viewflat_rule(rep, mod, results, tagD, D, fam, ops=None):
+    """A view (subarray / const_subarray: arbitrary strides) is traversed through its iterators.  An element primitive that is handed the raw base
+    pointer of a view operand walks the storage in memory order, which is the view's canonical order only for a contiguous row-major layout; the
+    library has no predicate that establishes that for D > 1 (is_compact() / nelems() == num_elements() only exclude gaps, the leading stride says nothing
+    about the inner ones).  Accepted: D = 1 on a path that fixes unit stride (stride() == 1, or is_compact())."""
+    for n, traces in sorted(results.items()):
+        if ops is not None and n not in ops:
+            continue
+        op = mod.ops[n]
+        views = {}
+        for k, role in op["roles"].items():
+            if role != "view":
+                continue
+            t = _ptype_of(op["params"], k)
+            if t in ("Sub", "CSub"):
+                try:
+                    views[k] = mod.offsets_for(t)["base"]
+                except common.AnalysisBroken:
+                    pass
+        if not views:
+            continue
+        key = "%s@%s" % (fam, n)
+        bad = []
+        for r in traces:
+            if r["outcome"] != "ret":
+                continue
+            for e in r["events"]:
+                if e[0] not in ("construct", "assign") or len(e) < 4:
+                    continue
+                for a_ in e[3]:
+                    sa = typestate.strip(a_)
+                    hit = [k for k, off in views.items() if sa == ("init", ("param", k), off) or sa == ("gep", ("init", ("param", k), off))]
+                    if not hit:
+                        continue
+                    true_conds = [repr(c) for c, v in r["pc"].items() if v]
+                    unit = D == 1 and any(("stride() const" in c and "('c', 1)" in c) or "is_compact() const" in c for c in true_conds)
+                    if not unit:
+                        conds = sorted(typestate.short_t(c, 60) + ("" if v else " [false]") for c, v in r["pc"].items())
+                        bad.append("%s is handed the raw base pointer of the view (parameter %d): the elements are walked in memory order (path conditions: %s)"
+                                   % (str(e[1])[-30:], hit[0], "; ".join(conds)[:240]))
+                    break
+        if bad:
+            rep.violated(key, fam, "%s (%s): %s" % (op["body"], tagD, sorted(set(bad))[0]), dict(op=n, problems=sorted(set(bad))[:3]))
+        else:
+            rep.ok(key + "#" + tagD, fam, None)
+
+
 def view_rules(rep, mod, results, tagD):
     """C05: assignment through views never (de)allocates, constructs, destroys, or writes base_/layout of any array; reaches element assignment"""
     for n, traces in results.items():
@@ -439,9 +494,12 @@ def assign_rules(rep, mod, results, tagD, D):
     """C06 (assign clause): a.assign(first, last) may keep the storage and copy in place only on paths on which the requested contents have the
     array's extents: the number of items equals size(), and for D > 1 the extents of the items equal the extents of the array's own items (or the range
     is empty).  On every other path new storage with the requested extents is built."""
-    n = "assign_iters"
-    if n not in results:
-        return
+    for n in ("assign_iters", "assign_ilist"):
+        if n in results:
+            _assign_rule(rep, mod, results, tagD, D, n)
+
+
+def _assign_rule(rep, mod, results, tagD, D, n):
     key = "R06.assign@%s" % n
     bad = []
     inplace = 0
@@ -453,17 +511,17 @@ def assign_rules(rep, mod, results, tagD, D):
             rebuilt += 1
             continue
         if not has_kind(r, ("assign",)):
-            # nothing copied: only acceptable when the range is empty and so is the array (count guard true)
-            pass
+            continue          # nothing copied (the empty list clears the array; an empty range over an empty array)
         inplace += 1
         true_conds = [repr(c) for c, v in r["pc"].items() if v]
         # (for D = 1 the number of elements is the size: either spelling is the same guard)
-        count_ok = any("adl_distance" in c and ("size() const" in c or (D == 1 and "num_elements() const" in c)) and "'cmp', 'eq'" in c for c in true_conds)
-        empty_range = any(re.search(r"array_iterator::operator==\(array_iterator const&\) const", c) and "('param', 1)" in c and "('param', 2)" in c for c in true_conds)
+        count_ok = any(("adl_distance" in c or "initializer_list::size() const" in c) and ("layout_t::size() const" in c or (D == 1 and "num_elements() const" in c)) and "'cmp', 'eq'" in c for c in true_conds)
+        empty_range = any((re.search(r"array_iterator::operator==\(array_iterator const&\) const", c) and "('param', 1)" in c and "('param', 2)" in c)
+                          or ("initializer_list::begin() const" in c and "initializer_list::end() const" in c and "'cmp', 'eq'" in c) for c in true_conds)
         ext_eq = re.compile(r"extensions_t::operator==|operator==\(extensions_t const&")      # member (D - 1 = 1) and friend (D - 1 > 1) forms
-        items_ok = any(ext_eq.search(c) and "operator*() const" in c and "('param', 1)" in c and "('param', 0)" in c for c in true_conds)
+        items_ok = any(ext_eq.search(c) and ("operator*() const" in c or "initializer_list::begin() const" in c) and "('param', 1)" in c and "('param', 0)" in c for c in true_conds)
         # the same guard written as one comparison of whole extents: this->extensions() == distance(first, last) * extensions(*first)
-        whole = any(ext_eq.search(c) and "adl_distance" in c and ("operator*() const" in c or D == 1) and "('param', 0)" in c for c in true_conds)
+        whole = any(ext_eq.search(c) and "adl_distance" in c and ("operator*() const" in c or "initializer_list::begin() const" in c or D == 1) and "('param', 0)" in c for c in true_conds)
         if whole:
             continue
         if not count_ok:
@@ -729,6 +787,8 @@ def rollback_exact(rep, mod, tagD, prop="R09", n=3):
             # unit strides, last = first + n
             argv = [("p", ("param", 0), 0), ("p", ("param", 1), 0), ("c", 1), ("p", ("param", 1), n * step), ("c", 1), ("p", ("param", 5), 0)]
             init_mem = {(("param", 5), 0): ("p", ("param", 6), 0), (("param", 5), 8): ("c", 1)}
+        elif re.match(r"^Tracked const\*, Tracked const\*, ", mm.group(2)):
+            continue                          # (pointer, pointer, ...) ranges: the same template body as the (iterator, iterator, ...) instantiation above
         elif all(pt == "i64" or pt.endswith("Tracked*") or pt.endswith("ObsAlloc*") for pt in ptypes) and "i64" in ptypes:
             argv = [("c", n) if pt == "i64" else ("p", ("param", k), 0) for k, pt in enumerate(ptypes)]
         else:
